@@ -911,6 +911,191 @@ theorem c10_power_limit_off_up (P : RsP) (hfo : P.fo = 0) (s : RsT) (dts : List 
   · exact h
   · have := c10_power_limit_up P hfo s dts h0 h; omega
 
+/-! ### the power limit for facade blinds, both directions -/
+
+theorem movePos_nofull' (c : MvCfg) (m : Mv) (h : c.fullMs = 0) : movePos c m = m := by
+  unfold movePos; simp [h]
+
+def FbPlain (s : FbT) : Prop :=
+  s.tstate = 0 ∧ s.pend = 0 ∧ (s.rel = 0 ∨ s.rel = 1) ∧ s.comm < 200000 ∧
+  (s.rel = 1 → s.downT > 600000000 → s.downT ≤ 600000000 + s.comm)
+
+theorem fb_plain_tick (P : FbP) (hfc : P.fc = 0) (s : FbT) (dt : Nat) (h : FbPlain s) :
+    FbPlain (fbTick P s dt) ∧
+    ((fbTick P s dt).rel = 1 → s.rel = 1 ∧ (fbTick P s dt).downT = s.downT + dt) := by
+  obtain ⟨hts, hpend, hne2, hc, hJ⟩ := h
+  by_cases hrel : s.rel = 1
+  · have hacc : fbAccount P s dt = { s with downT := s.downT + dt, upT := 0 } := by
+      unfold fbAccount
+      rw [if_neg (by omega), if_pos hrel]
+      have hm : ∀ m, movePos (P.mv false) m = m := fun m => movePos_nofull' _ m (by simp [FbP.mv, hfc])
+      simp only [hfc, fbCalibrate, hm]
+      simp [hrel]
+    have htask : fbTaskStep P (fbAccount P s dt) = fbAccount P s dt := by
+      unfold fbTaskStep; rw [hacc]; simp [hts]
+    unfold fbTick; rw [htask, hacc]
+    unfold fbCommStep
+    simp only
+    by_cases hfire : s.comm + dt ≥ 200000
+    · rw [if_pos hfire]
+      by_cases hex : (0 > 600000000 ∨ s.downT + dt > 600000000)
+      · rw [if_pos hex]
+        refine ⟨⟨by simp [fbRelOff, hts], by simp [fbRelOff], by simp [fbRelOff], by simp [fbRelOff], by simp [fbRelOff]⟩, ?_⟩
+        intro h1; simp [fbRelOff] at h1
+      · rw [if_neg hex]
+        refine ⟨⟨by simpa using hts, by simpa using hpend, by simp [hrel], by simp, ?_⟩, by intro _; exact ⟨hrel, rfl⟩⟩
+        intro _ h2; simp only at h2; omega
+    · rw [if_neg hfire]
+      refine ⟨⟨by simpa using hts, by simpa using hpend, by simp [hrel], by simp; omega, ?_⟩, by intro _; exact ⟨hrel, rfl⟩⟩
+      intro _ h2
+      simp only at h2 ⊢
+      have := hJ hrel
+      by_cases hprev : s.downT > 600000000
+      · have := this hprev; omega
+      · omega
+  · have hrel0 : s.rel = 0 := by rcases hne2 with h | h; exact h; exact absurd h hrel
+    have hacc : fbAccount P s dt = { s with upT := 0, downT := 0, sinceStop := s.sinceStop + dt } := by
+      unfold fbAccount; rw [if_neg (by omega), if_neg (by omega)]
+    have htask : fbTaskStep P (fbAccount P s dt) = fbAccount P s dt := by
+      unfold fbTaskStep; rw [hacc]; simp [hts]
+    unfold fbTick; rw [htask, hacc]
+    unfold fbCommStep
+    simp only
+    by_cases hfire : s.comm + dt ≥ 200000
+    · rw [if_pos hfire, if_neg (by omega)]
+      exact ⟨⟨by simpa using hts, by simpa using hpend, by simp [hrel0], by simp, by simp [hrel0]⟩, by simp [hrel0]⟩
+    · rw [if_neg hfire]
+      exact ⟨⟨by simpa using hts, by simpa using hpend, by simp [hrel0], by simp; omega, by simp [hrel0]⟩, by simp [hrel0]⟩
+
+theorem fb_plain_run (P : FbP) (hfc : P.fc = 0) : ∀ (dts : List Nat) (s : FbT), FbPlain s →
+    FbPlain (fbRun P s dts) ∧
+    ((fbRun P s dts).rel = 1 → s.rel = 1 ∧ (fbRun P s dts).downT = s.downT + C09.sum dts) := by
+  intro dts
+  induction dts with
+  | nil => intro s h; exact ⟨h, by intro h1; exact ⟨h1, by simp [fbRun, C09.sum]⟩⟩
+  | cons dt dts ih =>
+    intro s h
+    unfold fbRun
+    have t := fb_plain_tick P hfc s dt h
+    have r := ih (fbTick P s dt) t.1
+    refine ⟨r.1, ?_⟩
+    intro h1
+    have r2 := r.2 h1
+    have t2 := t.2 r2.1
+    exact ⟨t2.1, by rw [r2.2, t2.2]; simp [C09.sum]; omega⟩
+
+/-- C10 (power limit, facade blind, down): a blind driven down by a plain command while no closing time is configured (whatever
+    the tilt mode) — for every sequence of accounting callbacks an output still on means the run time so far is below
+    600.2 s, so it is off once 600.2 s of callbacks have passed -/
+theorem c10_fb_power_limit (P : FbP) (hfc : P.fc = 0) (s : FbT) (dts : List Nat)
+    (h0 : s.rel = 1 ∧ s.downT = 0 ∧ s.tstate = 0 ∧ s.pend = 0 ∧ s.comm < 200000) :
+    ((fbRun P s dts).rel = 1 → C09.sum dts < 600200000) ∧ (600200000 ≤ C09.sum dts → (fbRun P s dts).rel = 0) := by
+  have hp : FbPlain s := ⟨h0.2.2.1, h0.2.2.2.1, Or.inr h0.1, h0.2.2.2.2, by intro _ h; omega⟩
+  have r := fb_plain_run P hfc dts s hp
+  have key : (fbRun P s dts).rel = 1 → C09.sum dts < 600200000 := by
+    intro h1
+    have e := (r.2 h1).2
+    obtain ⟨_, _, _, hc, hJ⟩ := r.1
+    have := hJ h1
+    by_cases hx : (fbRun P s dts).downT > 600000000
+    · have := this hx; omega
+    · omega
+  refine ⟨key, ?_⟩
+  intro hT
+  rcases r.1.2.2.1 with h | h
+  · exact h
+  · have := key h; omega
+
+def FbPlainU (s : FbT) : Prop :=
+  s.tstate = 0 ∧ s.pend = 0 ∧ (s.rel = 0 ∨ s.rel = 2) ∧ s.comm < 200000 ∧
+  (s.rel = 2 → s.upT > 600000000 → s.upT ≤ 600000000 + s.comm)
+
+theorem fb_plain_tick_up (P : FbP) (hfo : P.fo = 0) (s : FbT) (dt : Nat) (h : FbPlainU s) :
+    FbPlainU (fbTick P s dt) ∧
+    ((fbTick P s dt).rel = 2 → s.rel = 2 ∧ (fbTick P s dt).upT = s.upT + dt) := by
+  obtain ⟨hts, hpend, hne2, hc, hJ⟩ := h
+  by_cases hrel : s.rel = 2
+  · have hacc : fbAccount P s dt = { s with upT := s.upT + dt, downT := 0 } := by
+      unfold fbAccount
+      rw [if_pos hrel]
+      have hm : ∀ m, movePos (P.mv true) m = m := fun m => movePos_nofull' _ m (by simp [FbP.mv, hfo])
+      simp only [hfo, fbCalibrate, hm]
+      simp [hrel]
+    have htask : fbTaskStep P (fbAccount P s dt) = fbAccount P s dt := by
+      unfold fbTaskStep; rw [hacc]; simp [hts]
+    unfold fbTick; rw [htask, hacc]
+    unfold fbCommStep
+    simp only
+    by_cases hfire : s.comm + dt ≥ 200000
+    · rw [if_pos hfire]
+      by_cases hex : (s.upT + dt > 600000000 ∨ 0 > 600000000)
+      · rw [if_pos hex]
+        refine ⟨⟨by simp [fbRelOff, hts], by simp [fbRelOff], by simp [fbRelOff], by simp [fbRelOff], by simp [fbRelOff]⟩, ?_⟩
+        intro h1; simp [fbRelOff] at h1
+      · rw [if_neg hex]
+        refine ⟨⟨by simpa using hts, by simpa using hpend, by simp [hrel], by simp, ?_⟩, by intro _; exact ⟨hrel, rfl⟩⟩
+        intro _ h2; simp only at h2; omega
+    · rw [if_neg hfire]
+      refine ⟨⟨by simpa using hts, by simpa using hpend, by simp [hrel], by simp; omega, ?_⟩, by intro _; exact ⟨hrel, rfl⟩⟩
+      intro _ h2
+      simp only at h2 ⊢
+      have := hJ hrel
+      by_cases hprev : s.upT > 600000000
+      · have := this hprev; omega
+      · omega
+  · have hrel0 : s.rel = 0 := by rcases hne2 with h | h; exact h; exact absurd h hrel
+    have hacc : fbAccount P s dt = { s with downT := 0, upT := 0, sinceStop := s.sinceStop + dt } := by
+      unfold fbAccount; rw [if_neg (by omega), if_neg (by omega)]
+    have htask : fbTaskStep P (fbAccount P s dt) = fbAccount P s dt := by
+      unfold fbTaskStep; rw [hacc]; simp [hts]
+    unfold fbTick; rw [htask, hacc]
+    unfold fbCommStep
+    simp only
+    by_cases hfire : s.comm + dt ≥ 200000
+    · rw [if_pos hfire, if_neg (by omega)]
+      exact ⟨⟨by simpa using hts, by simpa using hpend, by simp [hrel0], by simp, by simp [hrel0]⟩, by simp [hrel0]⟩
+    · rw [if_neg hfire]
+      exact ⟨⟨by simpa using hts, by simpa using hpend, by simp [hrel0], by simp; omega, by simp [hrel0]⟩, by simp [hrel0]⟩
+
+theorem fb_plain_run_up (P : FbP) (hfo : P.fo = 0) : ∀ (dts : List Nat) (s : FbT), FbPlainU s →
+    FbPlainU (fbRun P s dts) ∧
+    ((fbRun P s dts).rel = 2 → s.rel = 2 ∧ (fbRun P s dts).upT = s.upT + C09.sum dts) := by
+  intro dts
+  induction dts with
+  | nil => intro s h; exact ⟨h, by intro h1; exact ⟨h1, by simp [fbRun, C09.sum]⟩⟩
+  | cons dt dts ih =>
+    intro s h
+    unfold fbRun
+    have t := fb_plain_tick_up P hfo s dt h
+    have r := ih (fbTick P s dt) t.1
+    refine ⟨r.1, ?_⟩
+    intro h1
+    have r2 := r.2 h1
+    have t2 := t.2 r2.1
+    exact ⟨t2.1, by rw [r2.2, t2.2]; simp [C09.sum]; omega⟩
+
+/-- C10 (power limit, facade blind, up): a blind driven up by a plain command while no opening time is configured (whatever
+    the tilt mode) — for every sequence of accounting callbacks an output still on means the run time so far is below
+    600.2 s, so it is off once 600.2 s of callbacks have passed -/
+theorem c10_fb_power_limit_up (P : FbP) (hfo : P.fo = 0) (s : FbT) (dts : List Nat)
+    (h0 : s.rel = 2 ∧ s.upT = 0 ∧ s.tstate = 0 ∧ s.pend = 0 ∧ s.comm < 200000) :
+    ((fbRun P s dts).rel = 2 → C09.sum dts < 600200000) ∧ (600200000 ≤ C09.sum dts → (fbRun P s dts).rel = 0) := by
+  have hp : FbPlainU s := ⟨h0.2.2.1, h0.2.2.2.1, Or.inr h0.1, h0.2.2.2.2, by intro _ h; omega⟩
+  have r := fb_plain_run_up P hfo dts s hp
+  have key : (fbRun P s dts).rel = 2 → C09.sum dts < 600200000 := by
+    intro h1
+    have e := (r.2 h1).2
+    obtain ⟨_, _, _, hc, hJ⟩ := r.1
+    have := hJ h1
+    by_cases hx : (fbRun P s dts).upT > 600000000
+    · have := this hx; omega
+    · omega
+  refine ⟨key, ?_⟩
+  intro hT
+  rcases r.1.2.2.1 with h | h
+  · exact h
+  · have := key h; omega
+
 /-! ### idle stays idle - with or without calibration, roller shutter and facade blind -/
 
 /-- nothing energised, nothing pending, no task -/
